@@ -31,6 +31,10 @@ REGISTRY = [
      ["tools/replay_real.sh", "findings/D8_create_file_dotdot_opath.rs", "verif_replay_d8"]),
     (r"static\.walk_invariant|equals_the_kernel_walk_on_a_static_tree",
      ["tools/replay_real.sh", "findings/D6_empty_path.rs", "verif_replay_d6"]),
+    (r"openat2\.noctty_unless_opath",
+     ["tools/replay_real.sh", "findings/D9_D10_cloexec_noctty.rs", "verif_replay_d9"]),
+    (r"open_tree\.cloexec",
+     ["tools/replay_real.sh", "findings/D9_D10_cloexec_noctty.rs", "verif_replay_d10"]),
     (r"static GLOBAL_PROCFS_HANDLE",
      ["tools/replay_real.sh", "findings/D5c_global_procfs_init.rs", "verif_replay_d5c"]),
     (r"static PROTECTED_SYMLINKS_SYSCTL",
